@@ -20,6 +20,7 @@
 -/
 import SH.Model.PromSyntax
 import SH.Lemmas.PromSyntaxSound
+import SH.Model.PromLex
 set_option linter.unusedSimpArgs false
 namespace SH.Props.C28
 open SH.PromSyntax
@@ -1196,6 +1197,102 @@ example : ∃ e, parse toks1 = some e ∧ parse (printExpr .fixed (norm e)) = so
   cases h : parse toks1 with
   | none => exact absurd h (by decide)
   | some e => exact ⟨e, rfl, roundtrip_fixpoint toks1 e (fun t ht => (List.all_eq_true.mp (by decide : toks1.all tokOk = true)) t ht) h⟩
+
+/-! ## lexical layer: string literals written by `%q` are scanned back to exactly their closing quote
+     (model SH.Model.PromLex of lexString / lexEscape / lexRawString, tied to lex.go by the driver op `lexstr`) -/
+
+section Lexical
+open SH.PromLex
+
+theorem renderQ_cons (i : QItem) (is : List QItem) : renderQ (i :: is) = i.render ++ renderQ is := by
+  simp [renderQ]
+
+theorem digitsVal2 (d1 d2 : Nat) (h1 : isHex d1 = true) (h2 : isHex d2 = true) : ∃ x, digitsVal 16 [d1, d2] = some x := by
+  simp only [isHex, decide_eq_true_eq] at h1 h2
+  simp [digitsVal, h1, h2]
+
+/-- the lexer scans a `%q` body up to exactly its closing quote -/
+theorem lexString_renderQ (items : List QItem) (hok : ∀ i ∈ items, i.ok = true) (rest : List Nat) :
+    lexString cDq (renderQ items ++ cDq :: rest) = some (renderQ items, rest) := by
+  induction items with
+  | nil => simp only [renderQ, List.flatMap_nil, List.nil_append]; unfold lexString; simp [cDq, cBackslash, cNl]
+  | cons i is ih =>
+    have ih' := ih (fun j hj => hok j (by simp [hj]))
+    have hi := hok i (by simp)
+    rw [renderQ_cons]
+    cases i with
+    | plain c =>
+      simp only [QItem.ok, Bool.and_eq_true, bne_iff_ne, ne_eq] at hi
+      simp only [QItem.render, List.cons_append, List.nil_append]; unfold lexString
+      simp [hi.1.1, hi.1.2, hi.2, ih']
+    | short c =>
+      simp only [QItem.ok] at hi
+      simp only [QItem.render, List.cons_append, List.nil_append]; unfold lexString
+      simp [hi, ih']
+    | hex2 d1 d2 =>
+      simp only [QItem.ok, Bool.and_eq_true] at hi
+      obtain ⟨x, hx⟩ := digitsVal2 d1 d2 hi.1 hi.2
+      have hs : isShortEsc cDq 120 = false := by decide
+      simp only [QItem.render, List.cons_append, List.nil_append]; unfold lexString
+      simp [hs, hx, ih']
+    | u4 d1 d2 d3 d4 =>
+      simp only [QItem.ok] at hi
+      have hs : isShortEsc cDq 117 = false := by decide
+      cases hx : digitsVal 16 [d1, d2, d3, d4] with
+      | none => simp [hx] at hi
+      | some x =>
+        simp only [hx] at hi
+        simp only [QItem.render, List.cons_append, List.nil_append]; unfold lexString
+        simp [hs, hx, hi, ih']
+    | u8 d1 d2 d3 d4 d5 d6 d7 d8 =>
+      simp only [QItem.ok] at hi
+      have hs : isShortEsc cDq 85 = false := by decide
+      cases hx : digitsVal 16 [d1, d2, d3, d4, d5, d6, d7, d8] with
+      | none => simp [hx] at hi
+      | some x =>
+        simp only [hx] at hi
+        simp only [QItem.render, List.cons_append, List.nil_append]; unfold lexString
+        simp [hs, hx, hi, ih']
+
+
+/-- the STRING token the lexer cuts from printed text `"…"` followed by anything is the printed literal itself -/
+theorem lexStringTok_quoted (items : List QItem) (hok : ∀ i ∈ items, i.ok = true) (rest : List Nat) :
+    lexStringTok (cDq :: (renderQ items ++ cDq :: rest)) = some (cDq :: renderQ items ++ [cDq], rest) := by
+  simp [lexStringTok, lexString_renderQ items hok rest]
+
+/-- Round trip of a string literal / matcher value through printer and lexer, for ANY pair of functions `quote`/`unquote`
+    that satisfies on the value `v` the stated contract of strconv.Quote and strutil.Unquote (what `%q` writes consists of plain bytes and
+    well-formed escapes, and unquoting it gives the value back). The contract is a hypothesis here; it is discharged for the
+    real functions only by the correspondence / round-trip oracle on generated strings. -/
+theorem string_token_roundtrip (quote : List Nat → List QItem) (unquote : List Nat → Option (List Nat))
+    (v rest : List Nat)
+    (hq : (∀ i ∈ quote v, i.ok = true) ∧ unquote (cDq :: renderQ (quote v) ++ [cDq]) = some v) :
+    (lexStringTok (cDq :: (renderQ (quote v) ++ cDq :: rest))).bind (fun r => (unquote r.1).map (fun u => (u, r.2)))
+      = some (v, rest) := by
+  rw [lexStringTok_quoted _ hq.1]
+  have h2 := hq.2
+  simp only [List.cons_append] at h2
+  simp [h2]
+
+/-- non-vacuity: `"a\x01\u200b\U000e0001\\\""` is a well-formed %q body and the contract is satisfiable -/
+def exItems : List QItem :=
+  [.plain 97, .hex2 48 49, .u4 50 48 48 98, .u8 48 48 48 101 48 48 48 49, .short 92, .short 34]
+example : exItems.all QItem.ok = true := by decide
+example : lexStringTok (cDq :: (renderQ exItems ++ cDq :: [41])) = some (cDq :: renderQ exItems ++ [cDq], [41]) :=
+  lexStringTok_quoted exItems (by intro i hi; exact (List.all_eq_true.mp (by decide : exItems.all QItem.ok = true)) i hi) [41]
+example : (lexStringTok (cDq :: (renderQ exItems ++ cDq :: [41]))).bind
+      (fun r => ((fun t => if t = cDq :: renderQ exItems ++ [cDq] then some [97, 1] else none) r.1).map (fun u => (u, r.2)))
+    = some ([97, 1], [41]) :=
+  string_token_roundtrip (fun _ => exItems) (fun t => if t = cDq :: renderQ exItems ++ [cDq] then some [97, 1] else none)
+    [97, 1] [41] ⟨fun i hi => (List.all_eq_true.mp (by decide : exItems.all QItem.ok = true)) i hi, by simp⟩
+
+/-- the lexer seeded as C28-3 (one extra rune consumed after a numeric escape) loses the closing quote of `"a\x01"`;
+    the real scanner keeps it -/
+theorem extra_rune_breaks_last_escape :
+    lexStringExtra cDq [97, 92, 120, 48, 49, cDq] = none ∧
+    lexString cDq [97, 92, 120, 48, 49, cDq] = some ([97, 92, 120, 48, 49], []) := by decide
+
+end Lexical
 
 /-! ## the tables regenerated from /repo are the ones the proofs were written against -/
 
